@@ -3,6 +3,7 @@ from __future__ import annotations
 
 import copy as _copy
 import json
+import re
 
 from gen import c13_values as V
 from lib.common import model_run_parallel, src_hashes
@@ -47,7 +48,14 @@ def gen(ctx):
         "custom_validated_fields": [f["name"] for f in info["fields"] if f["val"].startswith("(VCustom")],
         "merge_topmatter_fields": [f["name"] for f in info["fields"] if f["merge"]],
         "global_only_fields": [f["name"] for f in info["fields"] if f["global_only"]],
+        "optparse_rules": [r["src"] + " -> " + r["kind"] for r in info["optparse_rules"]],
+        "combinators_used": {k: sum(1 for f in info["fields"] if re.search(r"\b%s\b" % re.escape(k), f["val_src"]))
+                             for k in info["dc_validator_defs"] + info["customs"]},
     })
+    ctx.gen_info["unused_validator_code"] = {
+        "dc_validators.py / check_* never named by a field": [k for k, n in ctx.gen_info["combinators_used"].items() if n == 0],
+    }
+    ctx._c13_rules = [r["src"] for r in info["optparse_rules"]]
 
 
 # ------------------------------------------------------------------ model side helpers
@@ -222,6 +230,11 @@ def corr(ctx):
             cases[i] = (k, payload, line)
         lines.append(cases[i][2])
     outs = model_run_parallel(PID, lines)
+    # which branches of _attr_to_optparse_option no docutils-visible field reaches (computed by the model)
+    reach = model_run_parallel(PID, ["reach"])[0].split(" # ")
+    rules_src = getattr(ctx, "_c13_rules", [])
+    ctx.gen_info.setdefault("unused_validator_code", {})["_attr_to_optparse_option branches deciding no field"] = \
+        [rules_src[int(i)] if int(i) < len(rules_src) else i for i in reach[0].split(",") if i != ""]
     base = None
     for (k, payload, line), o in zip(cases, outs):
         ctx.corr_cases += 1
